@@ -165,22 +165,13 @@ namespace MEDDLY {
             inline static bool equal_sw(const unsigned* a, const unsigned* b,
                     unsigned N)
             {
-                switch (N) {  // note: cases 12 - 2 fall through
-                    case 12:    if (a[11] != b[11]) return false;
-                    case 11:    if (a[10] != b[10]) return false;
-                    case 10:    if (a[9] != b[9]) return false;
-                    case  9:    if (a[8] != b[8]) return false;
-                    case  8:    if (a[7] != b[7]) return false;
-                    case  7:    if (a[6] != b[6]) return false;
-                    case  6:    if (a[5] != b[5]) return false;
-                    case  5:    if (a[4] != b[4]) return false;
-                    case  4:    if (a[3] != b[3]) return false;
-                    case  3:    if (a[2] != b[2]) return false;
-                    case  2:    if (a[1] != b[1]) return false;
-                    case  1:    return a[0] == b[0];
-                    case  0:    return true;
-                    default:    return (0==memcmp(a, b, N*sizeof(unsigned)));
-                };
+                // Compare from the front: the first slots identify the
+                // entry type (and key size), so a stored entry of another,
+                // shorter type is rejected before we read past its end.
+                for (unsigned i=0; i<N; i++) {
+                    if (a[i] != b[i]) return false;
+                }
+                return true;
             }
 
             //
@@ -189,22 +180,11 @@ namespace MEDDLY {
             inline static bool equal_sw(const ct_entry_item* a,
                     const ct_entry_item* b, unsigned N)
             {
-                switch (N) {  // note: cases 12 - 2 fall through
-                    case 12:    if (a[11].UL != b[11].UL) return false;
-                    case 11:    if (a[10].UL != b[10].UL) return false;
-                    case 10:    if (a[9].UL != b[9].UL) return false;
-                    case  9:    if (a[8].UL != b[8].UL) return false;
-                    case  8:    if (a[7].UL != b[7].UL) return false;
-                    case  7:    if (a[6].UL != b[6].UL) return false;
-                    case  6:    if (a[5].UL != b[5].UL) return false;
-                    case  5:    if (a[4].UL != b[4].UL) return false;
-                    case  4:    if (a[3].UL != b[3].UL) return false;
-                    case  3:    if (a[2].UL != b[2].UL) return false;
-                    case  2:    if (a[1].UL != b[1].UL) return false;
-                    case  1:    return a[0].UL == b[0].UL;
-                    case  0:    return true;
-                    default:    return (0==memcmp(a, b, N*sizeof(ct_entry_item)));
-                };
+                // Compare from the front; see above.
+                for (unsigned i=0; i<N; i++) {
+                    if (a[i].UL != b[i].UL) return false;
+                }
+                return true;
             }
 
             //
